@@ -35,7 +35,7 @@ def be_value(E, st, zs):
         k = n.as_long()
         t = z3.IntVal(0)
         for i in range(k):
-            t = t * 256 + z3.BV2Int(zs[i])
+            t = t * 256 + ops.byte_int(E, st, zs[i])
         return t
     t = BE(zs)
     st.fact(t >= 0)
@@ -76,7 +76,7 @@ def le_value(E, st, zs):
         k = n.as_long()
         t = z3.IntVal(0)
         for i in range(k - 1, -1, -1):
-            t = t * 256 + z3.BV2Int(zs[i])
+            t = t * 256 + ops.byte_int(E, st, zs[i])
         return t
     t = LE(zs)
     st.fact(t >= 0)
@@ -178,6 +178,10 @@ def b_len(E, st, args, kw):
             # (code only, never in spec mode: a specification string is a mathematical value, not an object)
             st.fact(z3.Length(v.t) <= 2 ** 63 - 1)
         return val(st, mk_int(seq_length(E, st, v.t)))
+    if isinstance(v, SStrL1):
+        return val(st, mk_int(seq_length(E, st, v.l1)))
+    if isinstance(v, SStr):
+        raise Unsupported('len of an unknown string')
     if isinstance(v, FrozenDict):
         return val(st, len(v.d))
     if isinstance(v, Ref):
@@ -195,6 +199,13 @@ def b_len(E, st, args, kw):
         mv = object_len(E, st, v, h)
         if mv is not None:
             return mv
+        gid = getattr(h, 'ghost_id', None)
+        if h.kind == 'obj' and h.cls is None and gid and E.registry is not None:
+            # abstract (native / opaque) object: len(obj) exists only as the contract / model  <class>.__len__
+            hook = E.registry.call_hook(E, gid + '.__len__', st)
+            if hook is not None:
+                return list(hook(E, st, [v], {}))
+            raise Unsupported('abstract object %s has no contract for len()' % gid)
     if isinstance(v, SRange):
         lo, hi = zint(v.lo), zint(v.hi)
         return val(st, mk_int(z3.If(hi > lo, (hi - lo + v.step - 1) / v.step, 0)))
@@ -385,6 +396,12 @@ def _bytes_from_iter(E, st, items):
         if ok is None:
             return outs
         cur = ok
+        if not isinstance(x, int) and z3.is_app(zx) and zx.num_args() > 0 and zx.decl().kind() != z3.Z3_OP_UNINTERPRETED:
+            # name a compound byte value: int->bitvector conversion of an arithmetic term is expensive for z3, while
+            # equal terms then meet as equal variables (exact: v == the term, on this path)
+            v = E.fresh(INT, 'byte')
+            cur.fact(v == zx)               # definition of a fresh name (conservative; survives spec-clause evaluation)
+            zx = v
         units.append(z3.Unit(z3.Int2BV(zx, 8)))
         if not isinstance(x, int):
             # ground instance of "int -> byte -> int is the identity on 0..255" (z3 is slow to find it by bit-blasting)
@@ -577,16 +594,21 @@ def b_pow(E, st, args, kw):
         if neg is not None:
             # modular inverse (python >= 3.8): pow(b, -1, m), m > 0, is the r in [0, m) with b*r == 1 (mod m);
             # ValueError iff gcd(b, m) != 1.  Only this form is modelled.
-            if not (isinstance(e, int) and e == -1 and E.implied(neg, zm > 0)):
-                raise Unsupported('pow with negative exponent other than pow(b, -1, m > 0)')
+            # Any other negative exponent (m != 0): pow(inverse(b, m), -e, m): same ValueError condition, the value is the
+            # uninterpreted modpow(b, e, m) with the range of a residue of m.
             g = gcd_value(E, neg, zb, zm)
             noinv, inv = E.split(neg, g != 1)
             if noinv is not None:
                 outs += rz(noinv, ValueError, 'base is not invertible for the given modulus')
             if inv is not None:
-                t = MODINV(zb, zm)
-                inv.fact(z3.And(t >= 0, t < zm))
-                inv.fact((zb * t - 1) % zm == 0)
+                if isinstance(e, int) and e == -1 and E.implied(inv, zm > 0):
+                    t = MODINV(zb, zm)
+                    inv.fact(z3.And(t >= 0, t < zm))
+                    inv.fact((zb * t - 1) % zm == 0)
+                else:
+                    t = MODPOW(zb, ze, zm)
+                    inv.fact(z3.Implies(zm > 0, z3.And(t >= 0, t < zm)))
+                    inv.fact(z3.Implies(zm < 0, z3.And(t <= 0, t > zm)))
                 outs.append(('val', inv, mk_int(t)))
         if ok is not None:
             t = MODPOW(zb, ze, zm)
@@ -703,8 +725,18 @@ def b_reversed(E, st, args, kw):
     return val(st, tuple(reversed(E.iter_concrete(args[0], st))))
 
 
+class SEnumerate:
+    """enumerate(b, start) over a byte string of symbolic length: only as the iterable of a `for` loop cut by an invariant"""
+
+    def __init__(self, seq, start):
+        self.seq, self.start = seq, start
+
+
 def b_enumerate(E, st, args, kw):
     start = args[1] if len(args) > 1 else kw.get('start', 0)
+    v = args[0]
+    if isinstance(v, SBytes) and isinstance(start, int) and not z3.is_int_value(z3.simplify(z3.Length(v.t))):
+        return val(st, SEnumerate(v, start))
     return val(st, tuple((start + i, x) for i, x in enumerate(E.iter_concrete(args[0], st))))
 
 
@@ -990,6 +1022,21 @@ def value_attr(E, st, base, attr):
                 raise Unsupported('str.%s with symbolic argument' % attr)
             return BuiltinV('str.' + attr, strm)
         return _MISSING
+    if isinstance(base, SStrL1):
+        def l1m(E, st, a, k, base=base, attr=attr):
+            if attr == 'encode':
+                enc = a[0] if a else k.get('encoding', 'utf-8')
+                if isinstance(enc, str) and enc.lower().replace('_', '-') in ('latin-1', 'latin1', 'iso-8859-1', 'l1'):
+                    return val(st, mk_bytes(base.l1))
+                raise Unsupported('encode(%r) of a latin-1 decoded string' % (enc,))
+            if attr in ('startswith', 'endswith') and len(a) == 1 and isinstance(a[0], str):
+                try:
+                    c = bytes_const(a[0].encode('latin-1'))
+                except UnicodeEncodeError:
+                    return val(st, False)
+                return val(st, mk_bool(z3.PrefixOf(c, base.l1) if attr == 'startswith' else z3.SuffixOf(c, base.l1)))
+            raise Unsupported('method %s of a latin-1 decoded string' % attr)
+        return BuiltinV('str.' + attr, l1m)
     if isinstance(base, SStr):
         def sstrm(E, st, a, k):
             if attr in ('lower', 'upper', 'strip', 'format', 'replace'):
@@ -1163,6 +1210,11 @@ def m_decode(E, st, base, a, k):
             return val(st, base.decode(*a, **k))
         except Exception as ex:      # noqa
             return rz(st, type(ex), str(ex))
+    enc = a[0] if a else k.get('encoding', 'utf-8')
+    if isinstance(enc, str) and enc.lower().replace('_', '-') in ('latin-1', 'latin1', 'iso-8859-1', 'l1') and len(a) <= 1 and \
+            set(k) <= {'encoding'}:
+        # latin-1 decoding is total (every octet is a code point): the string is represented by its encoding
+        return val(st, SStrL1(zbytes(base)))
     raise Unsupported('decode of symbolic bytes')
 
 
@@ -1288,6 +1340,18 @@ def container_attr(E, st, ref, h, attr):
                     return rz(st, IndexError, 'pop index out of range')
                 st.writes.append((ref.oid, '<items>'))
                 return val(st, v)
+            elif attr in ('popleft', 'appendleft'):
+                # collections.deque (see x_deque): a heap list flagged as a deque; a plain list has no such method
+                if getattr(h, 'ghost_id', None) != 'deque':
+                    return rz(st, AttributeError, "'list' object has no attribute '%s'" % attr)
+                if attr == 'appendleft':
+                    h.items.insert(0, a[0])
+                else:
+                    if not h.items:
+                        return rz(st, IndexError, 'pop from an empty deque')
+                    v = h.items.pop(0)
+                    st.writes.append((ref.oid, '<items>'))
+                    return val(st, v)
             elif attr == 'reverse':
                 h.items.reverse()
             elif attr == 'copy':
@@ -1488,7 +1552,7 @@ def x_struct_unpack(E, st, a, k):
             idxs = range(off, off + size) if order == 'big' else range(off + size - 1, off - 1, -1)
             t = z3.IntVal(0)
             for i in idxs:
-                t = t * 256 + z3.BV2Int(zs[i])
+                t = t * 256 + ops.byte_int(E, ok, zs[i])
             vals.append(mk_int(t))
             off += size
         outs.append(('val', ok, tuple(vals)))
@@ -1499,7 +1563,17 @@ def x_struct_calcsize(E, st, a, k):
     return val(st, _struct.calcsize(a[0]))
 
 
+def x_deque(E, st, a, k):
+    """collections.deque(iterable) without maxlen: modelled as a heap list flagged 'deque' (append/pop/popleft/appendleft/len/iteration)"""
+    if k or len(a) > 1:
+        raise Unsupported('deque with maxlen')
+    h = HObj('list', items=list(E.iter_concrete(a[0], st)) if a else [])
+    h.ghost_id = 'deque'
+    return val(st, st.alloc(h))
+
+
 _EXTERNAL = {
+    ('collections', 'deque'): BuiltinV('collections.deque', x_deque),
     ('struct', 'pack'): BuiltinV('struct.pack', x_struct_pack),
     ('struct', 'unpack'): BuiltinV('struct.unpack', x_struct_unpack),
     ('struct', 'calcsize'): BuiltinV('struct.calcsize', x_struct_calcsize),
